@@ -1,6 +1,7 @@
 import CalVerif.Prim.Wire
 import CalVerif.Model.OdsRange
 import CalVerif.Spec.OdsRange
+import CalVerif.Model.OdsCell
 /-! Driver for C04 (values = `usize`, 0 = the default / empty cell).
 
     lists are comma separated, `-` = empty list
@@ -10,6 +11,9 @@ import CalVerif.Spec.OdsRange
     `case <runs>`                             → `<model range dump>|<spec dump>` (spec = bbox + values of `expand`)
     `casevf <vfruns>`                         → `<model values>|<spec values>|<model formulas>|<spec formulas>`
                                                  (cell events `v,f*k` carry a value id and a formula id)
+    `cell <attr>;<attr>;…`                    → `<val> f=<formula hex> text=<0|1>` | `err` (model of get_datatype's
+                                                 attribute loop; attr = `v<f64 bits>` | `v!` (unparsable) | `s|d|t|b|y|f<hex>` | `o`;
+                                                 val = `E` | `F<bits>` | `S|D|T<hex>` | `B0|B1`)
     runs: rows separated by `/`, a row is `rep:v*k;v*k;…` (`rep:` = a row without cells), `-` = no rows
     range dump: `S=r,c E=r,c N=<len> C=<cells>`; more than 4096 cells: `C=#<fnv64 of the cell text>` -/
 
@@ -79,6 +83,48 @@ def specDump (runs : List (RowRun Nat)) : String :=
       (List.range (c1 + 1 - c0)).map fun j => expand runs (r0 + i) (c0 + j)
     s!"S={r0},{c0} E={r1},{c1} N={vals.length} C={showCells vals}"
 
+def strOfHex (h : String) : Option String :=
+  match Wire.bytesOfHex h with
+  | some bs => String.fromUTF8? (ByteArray.mk bs.toArray)
+  | none => none
+
+def hexOfStr (s : String) : String := Wire.hexOrDash s.toUTF8.toList
+
+def parseAttr (s : String) : Option OdsCell.Attr :=
+  if s = "o" then some .other
+  else if s = "v!" then some (.value none)
+  else
+    let k := s.take 1
+    let p := (s.drop 1).toString
+    if k.toString = "v" then p.toNat?.map fun b => .value (some b)
+    else match strOfHex p with
+      | none => none
+      | some t =>
+        match k.toString with
+        | "s" => some (.stringValue t)
+        | "d" => some (.dateValue t)
+        | "t" => some (.timeValue t)
+        | "b" => some (.boolValue t)
+        | "y" => some (.valueType t)
+        | "f" => some (.formula t)
+        | _ => none
+
+def showVal : OdsCell.Val → String
+  | .empty => "E"
+  | .float b => s!"F{b}"
+  | .str t => s!"S{hexOfStr t}"
+  | .bool b => if b then "B1" else "B0"
+  | .dateIso t => s!"D{hexOfStr t}"
+  | .durIso t => s!"T{hexOfStr t}"
+
+def handleCell (a : String) : String :=
+  match (if a = "-" then some [] else (a.splitOn ";").mapM parseAttr) with
+  | none => "bad-op"
+  | some attrs =>
+    match OdsCell.getDatatype attrs with
+    | none => "err"
+    | some o => s!"{showVal o.val} f={hexOfStr o.formula} text={if o.useText then 1 else 0}"
+
 def handle (line : String) : String :=
   match Wire.words line with
   | ["getrange", a, b, c] =>
@@ -97,6 +143,7 @@ def handle (line : String) : String :=
     match parseRuns rs with
     | some runs => s!"{dumpRes (getRange (collect runs))}|{specDump runs}"
     | none => "bad-op"
+  | ["cell", a] => handleCell a
   | ["casevf", rs] =>
     match parseRunsVF rs with
     | some runs =>
